@@ -63,6 +63,9 @@ StoreMem(s, op, a, v) ==
 StoreOk(op, a) == CASE op = "sw" -> Aligned(a) [] op = "sh" -> (a % 2) = 0 [] OTHER -> TRUE
 
 \* ------------------------------------------------------------- state
+\* initial valuations: 0 all registers distinct; 1 all zero; 2 boundary mix; 3 distinct but the
+\* usual condition registers a0 / t0 are zero (so that branches on them go the other way with all
+\* other values still distinguishable)
 InitRegs(v) ==
   [r \in Regs |->
      IF r = 0 THEN 0
@@ -71,6 +74,7 @@ InitRegs(v) ==
      ELSE CASE v = 0 -> 1000 + 37 * r
             [] v = 1 -> 0
             [] v = 2 -> (IF r % 2 = 0 THEN -1 - r ELSE MaxW - r)
+            [] v = 3 -> (IF r \in {5, 10} THEN 0 ELSE 2000 + 41 * r)
             [] OTHER -> 7 * r + v]
 
 Frame0(regs) == [snap |-> regs, retpc |-> 0, callnode |-> 0, dead |-> [r \in Regs |-> FALSE], entry |-> 1]
